@@ -42,9 +42,12 @@ type shutdownContext struct {
 	// Adding a mutex around shuttingDown because there may be concurrent reads/writes.
 	// Because the code in shutdown() and the seperate go routine created in setupEventsWatcher()
 	// could be concurrently accessing the field shuttingDown.
-	shuttingDownMutex  sync.Mutex
-	shuttingDown       bool
-	agentsAwaitingExit map[string]*core.ExternalAgent
+	shuttingDownMutex sync.Mutex
+	shuttingDown      bool
+	// agentsAwaitingExit is filled by shutdownAgents while the events watcher looks exiting
+	// processes up in it (handleProcessExit): guarded by agentsAwaitingExitMutex.
+	agentsAwaitingExitMutex sync.Mutex
+	agentsAwaitingExit      map[string]*core.ExternalAgent
 	// Adding a mutex around runtimeDomainExited because there may be concurrent reads/writes.
 	// The first reason this can be caused is by different go routines reading/writing different keys.
 	// The second reason this can be caused is between the code shutting down the runtime/extensions and
@@ -83,7 +86,9 @@ func (s *shutdownContext) setShuttingDown(value bool) {
 func (s *shutdownContext) handleProcessExit(termination supvmodel.ProcessTermination) {
 
 	name := *termination.Name
+	s.agentsAwaitingExitMutex.Lock()
 	agent, found := s.agentsAwaitingExit[name]
+	s.agentsAwaitingExitMutex.Unlock()
 
 	// If it is an agent registered to receive a shutdown event.
 	if found {
@@ -261,7 +266,9 @@ func (s *shutdownContext) shutdownAgents(execCtx *rapidContext, start time.Time,
 	var wg sync.WaitGroup
 
 	// clear agentsAwaitingExit from last shutdownAgents
+	s.agentsAwaitingExitMutex.Lock()
 	s.agentsAwaitingExit = make(map[string]*core.ExternalAgent)
+	s.agentsAwaitingExitMutex.Unlock()
 
 	for _, a := range execCtx.registrationService.GetExternalAgents() {
 		name := fmt.Sprintf("extension-%s-%d", a.Name, execCtx.runtimeDomainGeneration)
@@ -276,7 +283,9 @@ func (s *shutdownContext) shutdownAgents(execCtx *rapidContext, start time.Time,
 
 		if a.IsSubscribed(core.ShutdownEvent) {
 			log.Debugf("Agent %s is registered for the shutdown event.", a)
+			s.agentsAwaitingExitMutex.Lock()
 			s.agentsAwaitingExit[name] = a
+			s.agentsAwaitingExitMutex.Unlock()
 
 			go func(name string, agent *core.ExternalAgent) {
 				defer wg.Done()
@@ -382,7 +391,9 @@ func (s *shutdownContext) shutdown(execCtx *rapidContext, deadlineNs int64, reas
 		s.shutdownRuntime(execCtx, start, runtimeDeadline)
 		s.shutdownAgents(execCtx, start, agentsDeadline, reason)
 
+		s.agentsAwaitingExitMutex.Lock()
 		runtimeDomainProfiler.NumAgentsRegisteredForShutdown = len(s.agentsAwaitingExit)
+		s.agentsAwaitingExitMutex.Unlock()
 	}
 
 	log.Info("Waiting for runtime domain processes termination")
